@@ -132,6 +132,7 @@ def gen_case(rng):
     templates = []
     for i in range(nbos):
         templates.append(("bdisp", i))
+        templates.append(("bdispc", i))  # complex coupling (1+i) b + (1-i) b†: complex numeric factors next to the symbol g
     for i in range(nfer):
         for j in range(i + 1, nfer):
             templates.append(("hop", i, j))
@@ -182,6 +183,8 @@ def build(case, sp):
         k = t[0]
         if k == "bdisp":
             H1 += c * (b[t[1]] + Dagger(b[t[1]]))
+        elif k == "bdispc":
+            H1 += c * ((1 + sympy.I) * b[t[1]] + (1 - sympy.I) * Dagger(b[t[1]]))
         elif k == "hop":
             H1 += c * (Dagger(f[t[1]]) * f[t[2]] + Dagger(f[t[2]]) * f[t[1]])
         elif k == "pair":
@@ -628,7 +631,8 @@ def _worker(case):
 
 def oracle_fock(ctx, ncases=None, N=None):
     n = ncases or ctx.n(6, 80)
-    cases = []
+    # corpus (always runs): finding D23, N + g((1+i) a + (1-i) a†) made _poly_simplify raise GeneratorsNeeded at order 2
+    cases = [dict(nbos=1, nfer=0, terms=[["bdispc", 0, [1, 1]]], inter=None, K=7, N=2)]
     for i in range(n):
         c = gen_matrix_case(ctx.rng) if i % 3 == 2 else (gen_spin_case(ctx.rng) if i % 3 == 0 else gen_case(ctx.rng))
         c["N"] = N or ctx.n(2, 3)
